@@ -1,24 +1,119 @@
 /-
 C05 — criteria mean their implication closure, nothing more, however they are written.
-Property theorems only; helper lemmas live in Vet/Lemmas.
+Property theorems only; helper lemmas live in Vet/Lemmas/Closure.lean.
 -/
+import Vet.Lemmas.Closure
 import Vet.Lemmas.FromList
+import Vet.Lemmas.MapperSpec
 namespace Vet
+
+/-- The set computed for criterion `i` by `CriteriaMapper::new` is exactly what `i`
+transitively implies (itself included) — for every table the constructor accepts. -/
+theorem C05_closure_spec (t : Table) (m : Mapper) (h : Mapper.new t = .ok m)
+    (i j : Nat) (hi : i < m.n) :
+    (m.implied.getD i 0).testBit j = true ↔ t.Implies i j := by
+  obtain ⟨_, _, _, hn, _⟩ := new_ok h
+  exact new_closure h (hn ▸ hi) j
+
+/-- A criteria list denotes the union of the closures of its elements: `j` is in the set
+iff some listed element implies it. -/
+theorem C05_fromList_spec (t : Table) (m : Mapper) (h : Mapper.new t = .ok m)
+    (l : List Nat) (s : CSet) (hs : m.fromList l = .ok s) (j : Nat) :
+    s.testBit j = true ↔ ∃ i ∈ l, t.Implies i j := by
+  obtain ⟨_, _, _, hn, _⟩ := new_ok h
+  rw [fromList_testBit m l s hs j]
+  constructor
+  · rintro ⟨i, hi, hb⟩
+    exact ⟨i, hi, (new_closure h (hn ▸ fromList_ok_lt m l s hs i hi) j).1 hb⟩
+  · rintro ⟨i, hi, hb⟩
+    exact ⟨i, hi, (new_closure h (hn ▸ fromList_ok_lt m l s hs i hi) j).2 hb⟩
 
 /-- Reordering and duplicating list elements never changes the denoted set. -/
 theorem C05_fromList_perm_dup (m : Mapper) (l₁ l₂ : List Nat) (s₁ s₂ : CSet)
     (h₁ : m.fromList l₁ = .ok s₁) (h₂ : m.fromList l₂ = .ok s₂)
     (hsame : ∀ i, i ∈ l₁ ↔ i ∈ l₂) : s₁ = s₂ := by
-  apply Nat.eq_of_testBit_eq
+  apply eq_of_testBit_iff
   intro j
-  have e1 := fromList_testBit m l₁ s₁ h₁ j
-  have e2 := fromList_testBit m l₂ s₂ h₂ j
-  have : (s₁.testBit j = true) ↔ (s₂.testBit j = true) := by
-    rw [e1, e2]
-    constructor
-    · rintro ⟨i, hi, hb⟩; exact ⟨i, (hsame i).1 hi, hb⟩
-    · rintro ⟨i, hi, hb⟩; exact ⟨i, (hsame i).2 hi, hb⟩
-  cases h1 : s₁.testBit j <;> cases h2 : s₂.testBit j <;> simp_all
+  rw [fromList_testBit m l₁ s₁ h₁ j, fromList_testBit m l₂ s₂ h₂ j]
+  constructor
+  · rintro ⟨i, hi, hb⟩; exact ⟨i, (hsame i).1 hi, hb⟩
+  · rintro ⟨i, hi, hb⟩; exact ⟨i, (hsame i).2 hi, hb⟩
+
+/-- Replacing a list by its implication closure denotes the same set. -/
+theorem C05_fromList_closure (t : Table) (m : Mapper) (h : Mapper.new t = .ok m)
+    (l : List Nat) (s : CSet) (hs : m.fromList l = .ok s) :
+    m.fromList (CSet.indices m.n s) = .ok s := by
+  obtain ⟨_, _, hwf, hn, _⟩ := new_ok h
+  obtain ⟨s', hs'⟩ := fromList_ok_of m (CSet.indices m.n s) (fun i hi => ((mem_indices ..).1 hi).1)
+  rw [hs']
+  congr 1
+  apply eq_of_testBit_iff
+  intro j
+  rw [C05_fromList_spec t m h _ s' hs' j, C05_fromList_spec t m h l s hs j]
+  constructor
+  · rintro ⟨i, hi, hij⟩
+    obtain ⟨i', hi', hi'i⟩ := (C05_fromList_spec t m h l s hs i).1 ((mem_indices ..).1 hi).2
+    exact ⟨i', hi', Implies.trans hi'i hij⟩
+  · rintro ⟨i, hi, hij⟩
+    have hjn : j < m.n := hn ▸ Implies.lt hwf hij (hn ▸ fromList_ok_lt m l s hs i hi)
+    refine ⟨j, (mem_indices ..).2 ⟨hjn, ?_⟩, .refl _⟩
+    exact (C05_fromList_spec t m h l s hs j).2 ⟨i, hi, hij⟩
+
+/-- Replacing a list by its minimal generating set (what cargo-vet prints and writes)
+denotes the same set. -/
+theorem C05_minimal_denotes (t : Table) (m : Mapper) (h : Mapper.new t = .ok m)
+    (l : List Nat) (s : CSet) (hs : m.fromList l = .ok s) :
+    m.fromList (m.minimal s) = .ok s := by
+  obtain ⟨_, _, hwf, hn, _⟩ := new_ok h
+  obtain ⟨s', hs'⟩ := fromList_ok_of m (m.minimal s) (fun i hi => ((mem_minimal ..).1 hi).1.1)
+  rw [hs']
+  congr 1
+  apply eq_of_testBit_iff
+  intro j
+  rw [C05_fromList_spec t m h _ s' hs' j, C05_fromList_spec t m h l s hs j]
+  constructor
+  · rintro ⟨i, hi, hij⟩
+    obtain ⟨i', hi', hi'i⟩ := (C05_fromList_spec t m h l s hs i).1 ((mem_minimal ..).1 hi).1.2
+    exact ⟨i', hi', Implies.trans hi'i hij⟩
+  · rintro ⟨i, hi, hij⟩
+    have hjn : j < m.n := hn ▸ Implies.lt hwf hij (hn ▸ fromList_ok_lt m l s hs i hi)
+    have hsj : s.testBit j = true := (C05_fromList_spec t m h l s hs j).2 ⟨i, hi, hij⟩
+    exact exists_minimal h s _ j (Nat.le_refl _) hjn hsj
+
+/-- The printed list has no implied duplicates. -/
+theorem C05_minimal_irredundant (t : Table) (m : Mapper) (h : Mapper.new t = .ok m)
+    (s : CSet) (a b : Nat) (ha : a ∈ m.minimal s) (hb : b ∈ m.minimal s) (hab : t.Implies b a) :
+    a = b := by
+  obtain ⟨_, _, _, hn, _⟩ := new_ok h
+  obtain ⟨⟨hbn, hsb⟩, _⟩ := (mem_minimal ..).1 hb
+  obtain ⟨_, hmin⟩ := (mem_minimal ..).1 ha
+  rcases hmin b hbn hsb with h1 | h1
+  · exact h1
+  · rw [(new_closure h (hn ▸ hbn) a).2 hab] at h1
+    cases h1
+
+/-- every set built from names is closed under implication -/
+theorem C05_fromList_closed (t : Table) (m : Mapper) (h : Mapper.new t = .ok m)
+    (l : List Nat) (s : CSet) (hs : m.fromList l = .ok s) : t.Closed s := by
+  intro i j hi hij
+  obtain ⟨i', hi', hi'i⟩ := (C05_fromList_spec t m h l s hs i).1 hi
+  exact (C05_fromList_spec t m h l s hs j).2 ⟨i', hi', Implies.trans hi'i hij⟩
+
+/-- the constructor accepts exactly the well-formed tables: no built-in redefined, at most 64
+criteria, every `implies` defined, no implication cycle -/
+theorem C05_new_ok_iff (t : Table) :
+    (∃ m, Mapper.new t = .ok m) ↔
+      (∀ c ∈ t, c.clash = 0) ∧ t.n ≤ 64 ∧ (∀ c ∈ t, ∀ i ∈ c.implies, i < t.n) ∧
+      (∀ i k, i < t.n → t.direct i k → ¬ t.Implies k i) := by
+  constructor
+  · rintro ⟨m, h⟩
+    obtain ⟨h1, h2, hwf, _, _⟩ := new_ok h
+    exact ⟨h1, h2, hwf, fun i k hi hd => new_acyclic h hi hd⟩
+  · rintro ⟨h1, h2, hwf, hac⟩
+    apply new_of h1 h2 hwf
+    intro i hi hp
+    obtain ⟨k, hd, hr⟩ := (Plus_iff hwf i i).1 hp
+    exact hac i k hi hd hr
 
 /-- A list and its concatenation with another denote the union. -/
 theorem C05_fromList_append (m : Mapper) (l₁ l₂ : List Nat) (s₁ s₂ s : CSet)
